@@ -286,6 +286,50 @@ theorem imported_sheet_hands_down (w : World) (fuel d : Nat) (s : Sheet) (u : Ur
                 · have hr' : ¬ (0 < rd.enctype ∧ rd.enctype < 5 ∧ rd.encoding ≠ []) := fun hx => hr ⟨hx.1, hx.2.1⟩
                   simp [hr, hr', truthy, ownCharsetOf]
 
+/-- the reported encoding of every imported sheet is the encoding it was read in (lower-cased, for a name
+`CSSCharsetRule` accepts) when that came from an override, HTTP, BOM/@charset or the referring sheet; a sheet read as
+UTF-8 by default reports its own `@charset` rule if the parser kept one, else utf-8 -/
+theorem reported_is_used (w : World) (fuel : Nat) (input : Content) (enc : Option Name) (href : Option Url)
+    (p : Parsed) (h : parseString w fuel input enc href = .ok p) :
+    ∀ x ∈ p.out.recs, x.found = true →
+      (x.enctype < 5 → x.used ≠ [] → validName w x.used = true → x.reported = lower x.used) ∧
+      (x.enctype = 5 → x.reported = x.ownCharset.getD utf8N) := by
+  unfold parseString at h
+  split at h
+  · cases h
+  · split at h
+    · cases h
+    · rename_i st hst
+      split at h
+      · cases h
+      · rename_i st' hfin
+        simp only [Except.ok.injEq] at h; subst h
+        obtain ⟨_, hall⟩ := parseItems_all w (loadChild w fuel 1) (RepRec w) (fun _ => True)
+          (fun _ _ _ => trivial) (fun s u r _ hr => loadChild_reported w fuel 1 s u r hr) _ _ _ _ hst trivial
+          (by intro x hx; simp at hx)
+        have hout := finishEO_out w st st' _ _ hfin
+        intro x hx; simp only at hx; rw [hout] at hx; exact hall x hx
+
+/-- the fuel of the model is only a bound on the depth of the import tree: a result obtained with some fuel is the
+result for every larger fuel (so no theorem above depends on the fuel chosen) -/
+theorem fuel_irrelevant (w : World) (fuel k : Nat) (input : Content) (enc : Option Name) (href : Option Url)
+    (p : Parsed) (h : parseString w fuel input enc href = .ok p) :
+    parseString w (fuel + k) input enc href = .ok p := by
+  unfold parseString at h ⊢
+  cases hd : decodeRoot w input enc with
+  | error e => rw [hd] at h; cases h
+  | ok t =>
+    rw [hd] at h
+    simp only at h ⊢
+    cases hp : parseItems w (loadChild w fuel 1) (w.view t) 0
+        ⟨beginEO ⟨href, [], none, none, []⟩ enc none, ⟨[], []⟩⟩ with
+    | error e => rw [hp] at h; cases h
+    | ok st =>
+      rw [hp] at h
+      rw [parseItems_mono w (loadChild w fuel 1) (loadChild w (fuel + k) 1)
+        (fun s u r hr => loadChild_fuel_mono w k fuel 1 s u r hr) _ _ _ _ hp]
+      exact h
+
 /-- a sheet is never fetched while it is being loaded further up: the recursion guard of `_setHref` (fix bfd81fb) -/
 theorem recursive_import_not_followed (w : World) (fuel d : Nat) (s : Sheet) (u : Url)
     (hu : u ≠ []) (hanc : (s.href :: s.ancestors).contains (some u) = true) :
@@ -454,6 +498,18 @@ theorem escapecss_lossless_partial (rep : Nat → Bool) (hr : SyntaxRep rep) (t 
     (hchars : ∀ c ∈ t, c ≤ maxUnicode) (hok : ok rep t = true) :
     unescape (escape rep t) = unescape t :=
   roundtrip_from rep hr t .norm hchars hok
+
+/-- the guard is exact: the escaped text reads the same as the original IF AND ONLY IF no character that has to be
+escaped directly follows an unescaped backslash -/
+theorem escapecss_lossless_iff (rep : Nat → Bool) (hr : SyntaxRep rep) (t : List Nat)
+    (hchars : ∀ c ∈ t, c ≤ maxUnicode) :
+    unescape (escape rep t) = unescape t ↔ ok rep t = true := by
+  constructor
+  · intro h
+    cases hk : ok rep t with
+    | true => rfl
+    | false => exact absurd h (roundtrip_fails_from rep hr t .norm hchars hk)
+  · exact escapecss_lossless_partial rep hr t hchars
 
 /-- `escape` works character by character, so it can be read token by token -/
 theorem escapecss_tokenwise (rep : Nat → Bool) (a b : List Nat) :
